@@ -42,7 +42,7 @@ def b01? (s : String) : Option Bool := if s == "1" then some true else if s == "
 def gkey (byName : Bool) (name : String) (dims : List String) (tags : Tags) : String :=
   let b := if byName then "1" else "0"
   let n := if byName then esc name else "%"
-  let ps := dims.map (fun d => esc d ++ "=" ++ esc (tagVal tags d))
+  let ps := dims.eraseDups.map (fun d => esc d ++ "=" ++ esc (tagVal tags d))
   b ++ "~" ++ n ++ "~" ++ (if ps.isEmpty then "-" else ",".intercalate ps)
 
 def renderList (l : List String) : String := if l.isEmpty then "-" else ",".intercalate (l.map esc)
@@ -316,6 +316,7 @@ def judgeIso (lines : Array String) : Verdict := Id.run do
   -- the tie
   let mut brs : List String := [kind]
   if (distinctKeys keys).length ≥ 3 then brs := addBr brs "groups>=3"
+  if gps.any (fun pk => pk.1.dims.eraseDups.length < pk.1.dims.length) then brs := addBr brs "duplicate-dimension"
   if switches keys ≥ 3 then brs := addBr brs "interleaved"
   if (distinctKeys (pts.map (·.2))).length < (distinctKeys keys).length then brs := addBr brs "id-collision-in-run"
   if ptsOnly.any (fun p => p.v == .missing) then brs := addBr brs "field-missing"
